@@ -3,7 +3,7 @@ package verifcheck
 // C08 — metadata filters select exactly the matching live vectors.
 //
 // This file: the case representation (pure data), the rapid generator, the
-// renderer filter-AST -> text and the generator-side exclusion of known findings.
+// renderer filter-AST -> text and the model of the current metadata.
 
 import (
 	"sort"
@@ -315,7 +315,7 @@ func c08GenVec(t *rapid.T) []float32 {
 func c08GenCase() *rapid.Generator[c08Case] {
 	return rapid.Custom(func(t *rapid.T) c08Case {
 		var c c08Case
-		lists := rapid.IntRange(0, 9).Draw(t, "lists") >= 6 // list-valued fields in 40% of the cases
+		lists := rapid.IntRange(0, 9).Draw(t, "lists") >= 5 // list-valued fields in about half of the cases
 		live := map[string]bool{}
 		dead := map[string]bool{}
 		compressed := false
@@ -514,66 +514,6 @@ func c08TypeName(v any) string {
 		return "list"
 	}
 	return "other"
-}
-
-// ---------------------------------------------------------------- known findings: generator-side exclusion
-
-// c08ExcludeListRestore removes the shape of finding "list-restore" from a drawn history:
-// a list-valued field live while the secondary indexes are REBUILT by the restore path
-// (snapshot load at restart, VCompress). It drops
-//   - a compress executed while a live vector carries a list, and
-//   - a snapshot taken while a live vector carries a list if a restart follows while that
-//     snapshot is still the base on disk (i.e. before a rewrite / a later snapshot / compress).
-//
-// It returns the rewritten ops and how many ops were dropped.
-func c08ExcludeListRestore(ops []c08Op) ([]c08Op, int) {
-	ops = append([]c08Op{}, ops...)
-	dropped := 0
-	for {
-		victim := -1
-		m := c08NewModel()
-	walk:
-		for i, op := range ops {
-			if !m.applicable(op) {
-				continue
-			}
-			if op.K == "compress" && m.hasList() {
-				victim = i
-				break
-			}
-			if op.K == "snapshot" && m.hasList() {
-				sim := m.clone()
-			scan:
-				for j := i + 1; j < len(ops); j++ {
-					if !sim.applicable(ops[j]) {
-						continue
-					}
-					switch ops[j].K {
-					case "restart":
-						victim = i
-						break walk
-					case "rewrite", "snapshot", "compress":
-						break scan // another base replaces this snapshot (judged on its own)
-					}
-					sim.apply(ops[j])
-				}
-			}
-			m.apply(op)
-		}
-		if victim < 0 {
-			return ops, dropped
-		}
-		ops = append(ops[:victim], ops[victim+1:]...)
-		dropped++
-	}
-}
-
-func (m *c08Model) clone() *c08Model {
-	c := &c08Model{Live: map[string]map[string]any{}, Compressed: m.Compressed, Version: m.Version}
-	for id, meta := range m.Live {
-		c.Live[id] = c08CloneMeta(meta)
-	}
-	return c
 }
 
 // ---------------------------------------------------------------- small helpers
